@@ -60,6 +60,7 @@ CTYPE = "Z * Z * list Z * list Z * list Z * list Z * option Z * list Z"
 
 
 def run(res, tier, seed):
+    l1b.AUTO_NOISE = 7919 * seed + 13      # random bytes in every record field the spec writer does not set
     rng = common.rng_for(seed, PROP)
     from pygac.pod_reader import PODReader
     # ---------- (a) decoding ----------
@@ -131,6 +132,22 @@ def run(res, tier, seed):
         res.traces += 1
         if hts != p["header"]:
             res.violations.append(("header start time decoded wrongly", dict(ctx, got=str(tg.dt_of(hts)))))
+        if l1b.FMT[fmt]["family"] == "klm" and n <= 200:
+            # a KLM reader with its default options: the times after the coordinates were computed, and the dataset's time
+            # coordinate, are the same instants (KLM time codes are UTC; no other record field takes part)
+            try:
+                rd = impl.reader_class(fmt)()
+                rd.read("f", fileobj=__import__("io").BytesIO(data))
+                rd.get_lonlat()
+                t_after = tg.to_ms_array(rd.get_times())
+                t_ds = tg.to_ms_array(rd.create_counts_dataset()["times"].values)
+                if t_after != got or t_ds != got:
+                    k = next(i for i in range(len(got)) if t_after[i] != got[i] or t_ds[i] != got[i])
+                    res.violations.append(("times returned after the coordinate computation / as dataset coordinate differ from the recorded instants",
+                                           dict(ctx, line_index=k, recorded=str(tg.dt_of(got[k])), after_get_lonlat=str(tg.dt_of(t_after[k])),
+                                                dataset=str(tg.dt_of(t_ds[k])))))
+            except Exception as e:  # noqa
+                res.violations.append(("default-option KLM reader raised %r on a clean pass" % (e,), ctx))
         surv = [int(x) for x in r.scans["scan_line_number"]]
         if len(got) != len(surv):
             res.violations.append(("not one time per line", dict(ctx, got=len(got), lines=len(surv))))
